@@ -132,6 +132,83 @@ func TestVerifC19(t *testing.T) {
 	// explores sub-shard k div S of that scenario's schedule tree
 	nScen := len(scenarios)
 	subShards := (nsh + nScen - 1) / nScen
+	// ---- burst at the channel-start instant (explored before the scenarios, so that it never runs out of the time budget)
+	// ---- burst at the channel-start instant: more uploads than the channel's queue holds (10 messages)
+	// arrive while the channel goroutine is busy with the master track's second segment. Explored
+	// under both canonical thread orders (ascending and descending ids), because a background
+	// goroutine that was started first runs first by default and would never fall behind.
+	if sh == nsh-1 || nsh == 1 {
+		prior := []c19Upload{up("ch1", v, "init"), up("ch1", a, "init"), up("ch1", tx, "init"), up("ch1", v, "0")}
+		threads := [][]c19Upload{{up("ch1", v, "1")}, {up("ch1", a, "0"), up("ch1", a, "1"), up("ch1", a, "2")}, {up("ch1", tx, "0"), up("ch1", tx, "1"), up("ch1", tx, "2")}}
+		body := func(s *vrt.Sched) {
+			caseNr++
+			storage := fmt.Sprintf("%s/b%d", root, caseNr)
+			_ = os.MkdirAll(storage, 0o755)
+			defer os.RemoveAll(storage)
+			ctx, cancel := context.WithCancel(context.Background())
+			defer cancel()
+			rc, h, err := rNewReceiver(ctx, storage, nil, 30)
+			if err != nil {
+				s.Fail("setup", err.Error())
+				return
+			}
+			do := func(u c19Upload) {
+				r := rPut(h, c19Path(u), u.body, true, "", "")
+				if r.crashed() {
+					site, val := rPanicSite(rc, c19Path(u), u.body)
+					if val != "{}" {
+						s.Fail("C19.crash:panic:"+site, fmt.Sprintf("%s: %s", c19Path(u), val))
+					}
+				} else if r.Code != 200 {
+					s.Fail(fmt.Sprintf("C19.lost:status-%d:burst", r.Code), fmt.Sprintf("%s answered %d %q", c19Path(u), r.Code, string(r.Body)))
+				}
+			}
+			for _, u := range prior {
+				do(u)
+			}
+			s.Quiesce()
+			var hs []*vrt.Handle
+			for ti, us := range threads {
+				us := us
+				hs = append(hs, s.Spawn(fmt.Sprintf("burst%d", ti), func() {
+					for _, u := range us {
+						do(u)
+					}
+				}))
+			}
+			s.Join(hs...)
+			s.Quiesce()
+		}
+		bb := 1
+		if !quick {
+			bb = 2
+		}
+		for _, rev := range []bool{false, true} {
+			x := vrt.Explore(vrt.ExploreOpts{RunOpts: vrt.RunOpts{AllowBlockedDaemons: true, Race: true, WatchdogS: 60, Horizon: 200000, NoUnlockPoints: true, ReverseOrder: rev},
+				Bound: bb, MaxExec: 200000, DeadlineUnix: rep.DeadlineUnix(), FreeCost: 1}, body)
+			rep.AddExecs(int64(x.Executions))
+			rep.AddStates(int64(x.Points))
+			rep.AddTrans(int64(x.Points))
+			rep.Extra[fmt.Sprintf("executions_burst_reverse_%v", rev)] = x.Executions
+			for _, c := range x.CapsHit {
+				rep.Cap("burst:" + c)
+			}
+			for _, f := range x.Failures {
+				if strings.HasPrefix(f.Sig, "engine:") || f.Sig == "setup" {
+					t.Fatalf("engine/setup error: %s %s", f.Sig, f.Msg)
+				}
+				clause, sig := "C19.crash", f.Sig+":burst"
+				switch {
+				case strings.HasPrefix(f.Sig, "race:"):
+					clause, sig = "C19.race", f.Sig
+				case strings.HasPrefix(f.Sig, "C19."):
+					p := strings.SplitN(f.Sig, ":", 2)
+					clause, sig = p[0], p[1]
+				}
+				rep.Violate(clause, sig, f.Msg, map[string]any{"scenario": "burst-at-channel-start", "reverse_order": rev, "schedule": f.Choices})
+			}
+		}
+	}
 	for si, sc := range scenarios {
 		sc := sc
 		if nsh > 1 && sh%nScen != si {
@@ -309,82 +386,6 @@ func TestVerifC19(t *testing.T) {
 				clause = "C19.crash"
 			}
 			rep.Violate(clause, sig, f.Msg, map[string]any{"scenario": sc.name, "schedule": f.Choices})
-		}
-	}
-	// ---- burst at the channel-start instant: more uploads than the channel's queue holds (10 messages)
-	// arrive while the channel goroutine is busy with the master track's second segment. Explored
-	// under both canonical thread orders (ascending and descending ids), because a background
-	// goroutine that was started first runs first by default and would never fall behind.
-	if sh == nsh-1 || nsh == 1 {
-		prior := []c19Upload{up("ch1", v, "init"), up("ch1", a, "init"), up("ch1", tx, "init"), up("ch1", v, "0")}
-		threads := [][]c19Upload{{up("ch1", v, "1")}, {up("ch1", a, "0"), up("ch1", a, "1"), up("ch1", a, "2")}, {up("ch1", tx, "0"), up("ch1", tx, "1"), up("ch1", tx, "2")}}
-		body := func(s *vrt.Sched) {
-			caseNr++
-			storage := fmt.Sprintf("%s/b%d", root, caseNr)
-			_ = os.MkdirAll(storage, 0o755)
-			defer os.RemoveAll(storage)
-			ctx, cancel := context.WithCancel(context.Background())
-			defer cancel()
-			rc, h, err := rNewReceiver(ctx, storage, nil, 30)
-			if err != nil {
-				s.Fail("setup", err.Error())
-				return
-			}
-			do := func(u c19Upload) {
-				r := rPut(h, c19Path(u), u.body, true, "", "")
-				if r.crashed() {
-					site, val := rPanicSite(rc, c19Path(u), u.body)
-					if val != "{}" {
-						s.Fail("C19.crash:panic:"+site, fmt.Sprintf("%s: %s", c19Path(u), val))
-					}
-				} else if r.Code != 200 {
-					s.Fail(fmt.Sprintf("C19.lost:status-%d:burst", r.Code), fmt.Sprintf("%s answered %d %q", c19Path(u), r.Code, string(r.Body)))
-				}
-			}
-			for _, u := range prior {
-				do(u)
-			}
-			s.Quiesce()
-			var hs []*vrt.Handle
-			for ti, us := range threads {
-				us := us
-				hs = append(hs, s.Spawn(fmt.Sprintf("burst%d", ti), func() {
-					for _, u := range us {
-						do(u)
-					}
-				}))
-			}
-			s.Join(hs...)
-			s.Quiesce()
-		}
-		bb := 1
-		if !quick {
-			bb = 2
-		}
-		for _, rev := range []bool{false, true} {
-			x := vrt.Explore(vrt.ExploreOpts{RunOpts: vrt.RunOpts{AllowBlockedDaemons: true, Race: true, WatchdogS: 60, Horizon: 200000, NoUnlockPoints: true, ReverseOrder: rev},
-				Bound: bb, MaxExec: 200000, DeadlineUnix: rep.DeadlineUnix(), FreeCost: 1}, body)
-			rep.AddExecs(int64(x.Executions))
-			rep.AddStates(int64(x.Points))
-			rep.AddTrans(int64(x.Points))
-			rep.Extra[fmt.Sprintf("executions_burst_reverse_%v", rev)] = x.Executions
-			for _, c := range x.CapsHit {
-				rep.Cap("burst:" + c)
-			}
-			for _, f := range x.Failures {
-				if strings.HasPrefix(f.Sig, "engine:") || f.Sig == "setup" {
-					t.Fatalf("engine/setup error: %s %s", f.Sig, f.Msg)
-				}
-				clause, sig := "C19.crash", f.Sig+":burst"
-				switch {
-				case strings.HasPrefix(f.Sig, "race:"):
-					clause, sig = "C19.race", f.Sig
-				case strings.HasPrefix(f.Sig, "C19."):
-					p := strings.SplitN(f.Sig, ":", 2)
-					clause, sig = p[0], p[1]
-				}
-				rep.Violate(clause, sig, f.Msg, map[string]any{"scenario": "burst-at-channel-start", "reverse_order": rev, "schedule": f.Choices})
-			}
 		}
 	}
 }
